@@ -28,7 +28,7 @@ import sys
 sys.path.insert(0, os.path.dirname(os.path.abspath(__file__)))
 import verif as V  # noqa: E402  (read-only use: REPO, CXX, tree_dir(), include_dir())
 
-GEN_VERSION = "2"
+GEN_VERSION = "3"
 
 
 def _self_hash():
@@ -208,6 +208,84 @@ def _setters(rec, enums):
     return [c for c in cands if names.get(c["name"], 0) == 1]
 
 
+_CONTAINER = ("std::vector<", "std::list<", "std::deque<", "std::map<", "std::basic_string<", "std::__cxx11::basic_string<")
+
+
+def _bare(t):
+    """parameter / return type without const and reference"""
+    t = t.strip()
+    while t.endswith("&"):
+        t = t[:-1].strip()
+    if t.startswith("const "):
+        t = t[6:]
+    return t.strip()
+
+
+def _empties(rec, typedefs):
+    """ways to put an object into an EMPTY state, read from the class declaration:
+       ctors   public constructors that take a container / string / iterator pair / (pointer, length) -> can be given nothing
+       setters public `void name(const Container&)`                                                      -> can be given an empty one
+       clears  public non-const `Container& name()`                                                      -> .clear()"""
+    access = "private" if rec.get("tagUsed") == "class" else "public"
+    ctors, setters, clears = [], [], []
+
+    def under(t):
+        """underlying type of a (possibly typedef'd) written type"""
+        t = _bare(t)
+        for _ in range(8):
+            if t in typedefs:
+                t = _bare(typedefs[t])
+            else:
+                break
+        return "std::basic_string<char>" if t == "std::string" else t
+
+    def spellable(w):
+        w = _bare(w)
+        return "," not in w and (w.startswith("Tins::") or w == "std::string")
+
+    for c in rec.get("inner", []):
+        k = c.get("kind")
+        if k == "AccessSpecDecl":
+            access = c.get("access", access)
+            continue
+        if access != "public":
+            continue
+        if k == "FunctionTemplateDecl":
+            tps = [x.get("name") for x in c.get("inner", []) if x.get("kind") == "TemplateTypeParmDecl"]
+            for m in c.get("inner", []):
+                if m.get("kind") == "CXXConstructorDecl":
+                    ps = [x.get("type", {}).get("qualType", "") for x in m.get("inner", []) if x.get("kind") == "ParmVarDecl"]
+                    if len(ps) == 2 and ps[0] == ps[1] and ps[0] in tps:
+                        ctors.append(("IT", "int"))
+            continue
+        if c.get("isImplicit") or c.get("explicitlyDeleted"):
+            continue
+        params = [x for x in c.get("inner", []) if x.get("kind") == "ParmVarDecl"]
+        req = [x for x in params if "init" not in x]
+        if k == "CXXConstructorDecl":
+            if len(params) >= 1 and len(req) <= 1:
+                t = params[0].get("type", {})
+                w = t.get("qualType", "")
+                d = under(t.get("desugaredQualType", w))
+                if not w.rstrip().endswith("&&") and d.startswith(_CONTAINER) and spellable(w):
+                    ctors.append(("STR" if "basic_string" in d else "VEC", _bare(w)))
+        elif k == "CXXMethodDecl" and c.get("storageClass") != "static" and not c.get("name", "").startswith("operator"):
+            ft = c.get("type", {})
+            qt, dqt = ft.get("qualType", ""), ft.get("desugaredQualType", ft.get("qualType", ""))
+            if qt.startswith("void (") and not qt.rstrip().endswith("const") and len(params) == 1:
+                t = params[0].get("type", {})
+                w = t.get("qualType", "")
+                d = under(t.get("desugaredQualType", w))
+                if not w.rstrip().endswith("&&") and d.startswith(_CONTAINER) and spellable(w):
+                    setters.append((c["name"], _bare(w)))
+            elif not params and qt.rstrip().endswith("&()") and not qt.startswith("const "):
+                ret = dqt[:dqt.rfind("(")].strip()
+                if ret.endswith("&") and not ret.startswith("const ") and under(ret).startswith(_CONTAINER):
+                    clears.append(c["name"])
+    uniq = lambda l: [x for i, x in enumerate(l) if x not in l[:i]]  # noqa: E731
+    return {"ctors": uniq(ctors), "setters": uniq(setters), "clears": uniq(clears)}
+
+
 def extract(gd, include_dirs):
     """-> dict(classes=[...], templates=[...], flags=[...], headers=[...])"""
     os.makedirs(gd, exist_ok=True)
@@ -220,6 +298,7 @@ def extract(gd, include_dirs):
     flags = []
     order = []
     enums = {}       # qualified enum name -> (min, max) enumerator value
+    typedefs = {}    # qualified member typedef -> underlying type
 
     def file_of(node, cur):
         loc = node.get("loc", {})
@@ -246,6 +325,9 @@ def extract(gd, include_dirs):
                 for c in node.get("inner", []):
                     if c.get("kind") in ("CXXRecordDecl", "ClassTemplateDecl", "EnumDecl"):
                         walk(c, scope + [node["name"]])
+                    elif c.get("kind") in ("TypedefDecl", "TypeAliasDecl") and c.get("name"):
+                        tt = c.get("type", {})
+                        typedefs[q + "::" + c["name"]] = tt.get("desugaredQualType", tt.get("qualType", ""))
         elif k == "ClassTemplateDecl":
             q = "::".join(scope + [node.get("name", "?")])
             for c in node.get("inner", []):
@@ -345,6 +427,7 @@ def extract(gd, include_dirs):
             "bases": [b for b, acc, _ in bs if derives(b)],
             "nonpublic_pdu_base": any(acc != "public" for b, acc, _ in bs if derives(b)),
             "setters": _setters(node, enums),
+            "empties": _empties(node, typedefs),
         })
     tmpls = []
     for q, node in sorted(templates.items()):
@@ -375,11 +458,18 @@ HEADER = """// GENERATED by /verif/lib/gen.py from the headers of the tree being
 //   TINS_PDU_SETTER(Q, ID, DQ, NAME, KIND, BITS) for every CONCRETE, default-constructible Q: a public `void DQ::NAME(A)` declared by Q or
 //                                               one of its PDU bases DQ whose argument is a small value type: KIND U = integer of BITS bits,
 //                                               B = bool, S = Tins::small_uint<BITS>, E = enum whose enumerators need BITS bits
+//   TINS_PDU_SLICE(Q, ID, QB, IDB)              Q concrete, QB a (transitive) public PDU base of Q that is not abstract and has a usable copy
+//                                               constructor: `QB x(q)` (slicing copy), `x = q`, ... are legal
+//   TINS_PDU_EMPTY_CTOR(Q, ID, KIND, ARG)       Q concrete with a public constructor that can be handed NOTHING: KIND B0 = (const uint8_t*, uint32_t)
+//                                               with length 0, STR = string, VEC = container of type ARG, IT = iterator pair (template)
+//   TINS_PDU_EMPTY_SETTER(Q, ID, DQ, NAME, ARG) Q concrete; public `void DQ::NAME(const ARG&)`, ARG a container or string (DQ = Q or a PDU base)
+//   TINS_PDU_CLEARABLE(Q, ID, DQ, NAME)         Q concrete; public non-const `Container& DQ::NAME()` (the caller can .clear() it)
 // Undefined macros expand to nothing.
 """
 
 MACROS = ["TINS_PDU_CLASS", "TINS_PDU_CONCRETE", "TINS_PDU_FLAGGED", "TINS_PDU_CACHEABLE", "TINS_PDU_BASE",
-          "TINS_PDU_TEMPLATE", "TINS_PDU_FLAGNAME", "TINS_PDU_SETTER"]
+          "TINS_PDU_TEMPLATE", "TINS_PDU_FLAGNAME", "TINS_PDU_SETTER", "TINS_PDU_SLICE", "TINS_PDU_EMPTY_CTOR",
+          "TINS_PDU_EMPTY_SETTER", "TINS_PDU_CLEARABLE"]
 
 
 def render(t):
@@ -425,6 +515,25 @@ def render(t):
         for dq in lineage(c["name"], set()):
             for st in byname[dq]["setters"]:
                 o.append("TINS_PDU_SETTER(%s, %s, %s, %s, %s, %d)\n" % (c["name"], c["id"], dq, st["name"], st["kind"], st["bits"]))
+    for c in t["classes"]:
+        if c["abstract"] or not c["public_ctor"] or c["nonpublic_pdu_base"]:
+            continue
+        for bq in lineage(c["name"], set())[1:]:
+            bc = byname[bq]
+            if not bc["abstract"] and bc["copyable"] and not bc["nonpublic_pdu_base"]:
+                o.append("TINS_PDU_SLICE(%s, %s, %s, %s)\n" % (c["name"], c["id"], bq, bc["id"]))
+    for c in t["classes"]:
+        if c["abstract"] or not c["public_ctor"] or c["nonpublic_pdu_base"]:
+            continue
+        if c["bufctor"]:
+            o.append("TINS_PDU_EMPTY_CTOR(%s, %s, B0, int)\n" % (c["name"], c["id"]))
+        for kind, arg in c["empties"]["ctors"]:
+            o.append("TINS_PDU_EMPTY_CTOR(%s, %s, %s, %s)\n" % (c["name"], c["id"], kind, arg))
+        for dq in lineage(c["name"], set()):
+            for nm, arg in byname[dq]["empties"]["setters"]:
+                o.append("TINS_PDU_EMPTY_SETTER(%s, %s, %s, %s, %s)\n" % (c["name"], c["id"], dq, nm, arg))
+            for nm in byname[dq]["empties"]["clears"]:
+                o.append("TINS_PDU_CLEARABLE(%s, %s, %s, %s)\n" % (c["name"], c["id"], dq, nm))
     for m in MACROS:
         o.append("#ifdef %s_DEFAULTED_\n#undef %s\n#undef %s_DEFAULTED_\n#endif\n" % (m, m, m))
     return "".join(o)
